@@ -1374,6 +1374,45 @@ def _components(e, mesh, i, O, objs=()):
 
 
 # ---------------------------------------------------------------------------- N1
+def _guarded_vector(e, atom_of):
+    """`np.where(v > 0, v, c)` / `np.where(v == 0, c, v)` / `np.maximum(v, c)` / `np.clip(v, c, None)`: (polynomial of v, constant c) - a vector
+    whose components are those of v except that zero (small) ones are replaced by c;  None for anything else"""
+    if not isinstance(e, ast.Call):
+        return None
+    t = au.call_tail(e)
+    num = lambda x: au.const(x) if isinstance(au.const(x), (int, float)) and not isinstance(au.const(x), bool) else None
+    if t == "where" and len(e.args) == 3:
+        a, b = e.args[1], e.args[2]
+        for v, c in ((a, b), (b, a)):
+            if num(c) is not None and num(v) is None and src(v) in src(e.args[0]):
+                return vpoly(v, atom_of), float(num(c))
+        return None
+    if t == "maximum" and len(e.args) == 2:
+        for v, c in ((e.args[0], e.args[1]), (e.args[1], e.args[0])):
+            if num(c) is not None and num(v) is None:
+                return vpoly(v, atom_of), float(num(c))
+    if t == "clip" and len(e.args) >= 2 and num(e.args[1]) is not None and isinstance(e.func, ast.Attribute) and src(e.func.value) in ("np", "numpy"):
+        return vpoly(e.args[0], atom_of), float(num(e.args[1]))
+    return None
+
+
+def _degenerate_box(conds, box):
+    """the path is taken only when the largest extent of the bounding box is not positive"""
+    import operator
+    ops = {ast.Gt: operator.gt, ast.GtE: operator.ge, ast.Lt: operator.lt, ast.LtE: operator.le, ast.Eq: operator.eq, ast.NotEq: operator.ne}
+    for t, pol in conds:
+        if isinstance(t, ast.Compare) and len(t.ops) == 1 and type(t.ops[0]) in ops:
+            l, r = t.left, t.comparators[0]
+            for x, c, flip in ((l, r, False), (r, l, True)):
+                if au.const(c) == 0 and not isinstance(au.const(c), bool) and vpoly(x, box) == P.atom("EXTENT"):
+                    holds_for_positive = ops[type(t.ops[0])](0, 1) if flip else ops[type(t.ops[0])](1, 0)
+                    if holds_for_positive != pol:
+                        return True
+        if isinstance(t, ast.Call) and au.call_tail(t) in ("max", "amax") and vpoly(t, box) == P.atom("EXTENT") and not pol:
+            return True                      # `if not np.max(span)`
+    return False
+
+
 def _box_atom(mesh):
     box = f"AABB.of_mesh({mesh})"
 
@@ -1390,6 +1429,14 @@ def _box_atom(mesh):
         if isinstance(e, ast.Call) and (au.call_tail(e) in ("max", "amax") and len(e.args) == 1 and src(e.func).split(".")[0] in ("np", "numpy", "max")
                                         or isinstance(e.func, ast.Attribute) and e.func.attr == "max" and not e.args):
             arg = e.args[0] if e.args else e.func.value
+            g = _guarded_vector(arg, f)
+            if g is not None:
+                base, floor = g
+                if base == P.atom("MAXI") - P.atom("MINI"):
+                    # max over the extents where some of them were replaced by / clamped to a constant: an epsilon only matters for a mesh
+                    # reduced to a point; a constant of the size of real coordinates competes with the true extents of a flat mesh
+                    return P.atom("EXTENT") if abs(floor) < 1e-6 else P.atom(f"MAX[extents, with zero / small extents replaced by {floor:g}]")
+                return None
             inner = vpoly(arg, f)
             if inner == P.atom("MAXI") - P.atom("MINI"):
                 return P.atom("EXTENT")
@@ -1433,8 +1480,8 @@ def n1_normalize(ctx):
         if p.end == "raise":
             continue
         sw = None
-        if _empty_mesh(p.conds, mesh):
-            continue                         # nothing to move
+        if _empty_mesh(p.conds, mesh) or _degenerate_box(p.conds, box):
+            continue                         # nothing to move / a mesh reduced to a point (the documented map divides by zero)
         for t, pol in p.conds:
             if isinstance(t, ast.Name) and t.id == switch:
                 sw = pol
